@@ -91,6 +91,12 @@ func corrC18(r *Run) {
 		smsReaderIndependence(r, in, o, label, input)
 		// model cases
 		emit := r.Advisory
+		if !strict && r.Quick && bucket != "corpus" && !strings.HasSuffix(label, "/well-formed") && fnv64(key)%3 != 0 {
+			// quick tier: every hostile input is a direct test, one in three is also an advisory model case
+			emit = func(string, string) {}
+			r.Hist["model case: none (direct test only)"]++
+			r.Hist["model case: advisory"]--
+		}
 		if strict {
 			emit = r.Case
 			r.Hist["model case: strict"]++
